@@ -37,3 +37,7 @@ pub use node::verif_hooks as verif_node;
 #[cfg(scylla_verif)]
 #[allow(missing_docs)]
 pub use state::verif_hooks as verif_state;
+
+#[cfg(scylla_verif)]
+#[allow(missing_docs)]
+pub use state::verif_hooks_tablets as verif_tablets_maintenance;
